@@ -16,6 +16,10 @@
 
    Cells (region, index):
      (OMod, 0)            pddl_domain.DEFAULT_TYPES
+     (OMod, 1)            every other process-wide object of the library: module globals, class attributes and the
+                          default-argument objects of its functions (e.g. the one dict of
+                          PDDLFunction.__init__(repeating_variables={}) that every fluent built without explicit
+                          repeating variables carries and every serializer of a state reads)
      (ODom d, 0)          Domain.types when the domain owns it        (ODom d, 1)   everything else lifted
      (ODom d, 2+i)        Action.signature of the i-th action
      (OSt s, 0/1/2)       state_predicates (dict + fact sets) / state_fluents dict / Problem.objects
@@ -92,7 +96,9 @@ Inductive op :=
 | OReadState (s : nat)
 | OReadDomain (d : nat)
 | OReadOp (o : nat)
-| OTriplet (d a s pobjs : nat) (sh : ashape) (refused : bool).
+| OTriplet (d a s pobjs : nat) (sh : ashape) (refused : bool)
+| ONewState (d p : nat) (keys : list nat).              (* a State read from text against domain d and the objects of
+                                                           problem p: TrajectoryParser.parse_state *)
 
 (* ---------------------------------------------------------------- helpers *)
 Definition dflt_d : dinfo := {| d_types := (OMod, 0); d_nacts := 0 |}.
@@ -255,7 +261,10 @@ Definition step (c : cfg) (m : mstate) (p : op) : mstate * list event :=
       else let '(m2, evb) := ev_apply_body c m1 o oi src in (m2, evg ++ eva ++ evb)
   | OCopy s =>
       let '(si, evs) := ev_copy_state m (nth s (sts m) dflt_s) in (add_state m si, evs)
-  | OReadState s => (m, map Read (st_cells (nth s (sts m) dflt_s)))
+  | OReadState s =>
+      (* serialize / typed_serialize / trajectory and problem export: PDDLFunction.state_representation reads the
+         fluent's repeating_variables, which is the process-wide default dict unless the problem parser supplied one *)
+      (m, Read (OMod, 1) :: map Read (st_cells (nth s (sts m) dflt_s)))
   | OReadDomain d => (m, map Read (dom_cells d (nth d (doms m) dflt_d)))
   | OReadOp o =>
       let oi := nth o (ops m) dflt_o in
@@ -273,6 +282,14 @@ Definition step (c : cfg) (m : mstate) (p : op) : mstate * list event :=
           let si := {| s_cells := firstn 2 (s_cells src); s_vals := s_vals src |} in
           (add_state m1 si, evo ++ evg ++ eva ++ map (Link (OSt s')) (st_cells si))
       else let '(m2, evb) := ev_apply_body c m1 o oi src in (m2, evo ++ evg ++ eva ++ evb)
+  | ONewState d p keys =>
+      (* parse_state: looks every atom up in the domain's predicates / functions and every argument in Problem.objects
+         (+ the domain's constants), builds fresh GroundedPredicate / PDDLFunction objects in fresh dicts *)
+      let s := List.length (sts m) in
+      let si := fresh_state s 2 keys in
+      (add_state m si,
+       map Read (dom_cells d (nth d (doms m) dflt_d)) ++ [Read (OSt p, 2)] ++ map Alloc (st_cells si)
+       ++ map Write (st_cells si) ++ map (Link (OSt s)) (st_cells si))
   end.
 
 (* running a history: the model state, the store, and the event log *)
@@ -291,7 +308,7 @@ Definition op_cells (m : mstate) (o : nat) (oi : oinfo) : list loc :=
 
 Definition reach (m : mstate) (v : owner) : list loc :=
   match v with
-  | OMod => [(OMod, 0)]
+  | OMod => [(OMod, 0); (OMod, 1)]
   | ODom d => dom_cells d (nth d (doms m) dflt_d)
   | OSt s => st_cells (nth s (sts m) dflt_s)
   | OOp o => op_cells m o (nth o (ops m) dflt_o)
